@@ -1,7 +1,82 @@
 import CogentModel.Json
-open CogentModel
+import CogentModel.Model.Calculator
+open CogentModel CogentModel.Calc
 
-def handle (cmd : String) (_j : J) : Except String J :=
-  throw s!"unknown command {cmd}"
+/-- the integer hash-combine calc used by the correspondence harness:
+`v = ((Σ (i+3)·aᵢ)·mult + salt) mod 1000003`, raising when `rmod > 0 ∧ v mod rmod = rres` -/
+def hashCalc (salt mult rmod rres : Int) (xs : List Int) : Option Int :=
+  let rec go (i : Int) : List Int → Int
+    | [] => 0
+    | a :: as => (i + 3) * a + go (i + 1) as
+  let v := Int.fmod (go 0 xs * mult + salt) 1000003
+  if rmod > 0 && Int.fmod v rmod == rres then none else some v
+
+def parseCell (j : J) : Except String (Cell Int) := do
+  match ← (← j.get "k").toStr with
+  | "opt" => do
+    let c ← (← j.get "add").toInt
+    pure (.opt (fun v => v + c))
+  | "const" => do pure (.const (← (← j.get "v").toInt))
+  | "eval" => do
+    let args ← (← j.get "args").toListOf J.toNat
+    pure (.eval (← (← j.get "rec").toBool) args
+      (hashCalc (← (← j.get "salt").toInt) (← (← j.get "mult").toInt) (← (← j.get "rmod").toInt) (← (← j.get "rres").toInt)))
+  | s => throw s!"bad cell kind {s}"
+
+def parseGraph (j : J) : Except String (Graph Int) := do
+  let cells ← (← j.get "cells").toListOf parseCell
+  pure { cells := cells, nOpt := (cells.filter Cell.isOpt).length }
+
+def parseChanges (j : J) : Except String (List (Nat × Int)) :=
+  j.toListOf (J.toPairOf J.toNat J.toInt)
+
+def snap (g : Graph Int) (s : St Int) (ret : Option Int) (raised : Bool) : J :=
+  J.obj [("ret", J.ofOptInt ret), ("raised", J.bool raised),
+         ("last", J.ofList J.num (lastVec g s)), ("cur", J.ofList J.num (curValues g s)),
+         ("undo", J.ofList (fun p => J.arr [J.num p.1, J.num p.2]) s.lastUndo),
+         ("sw", J.bool s.sw)]
+
+def runOps (g : Graph Int) : St Int → List J → Except String (List J)
+  | _, [] => pure []
+  | s, op :: ops => do
+    match ← op.toList with
+    | [J.str "change", c] => do
+      let ch ← parseChanges c
+      let r := change g s ch
+      let ok := let au := afterUndo s ch
+                assertOK g { au.1 with sw := !au.1.sw, lastUndo := [] } (program g (au.2.map (·.1)))
+      let o := match snap g r.1 r.2 r.2.isNone with
+        | J.obj kvs => J.obj (kvs ++ [("assert_ok", J.bool ok)])
+        | x => x
+      pure (o :: (← runOps g r.1 ops))
+    | [J.str "call", v] => do
+      let vs ← v.toListOf J.toInt
+      let r := call g s vs
+      pure (snap g r.1 r.2 r.2.isNone :: (← runOps g r.1 ops))
+    | _ => throw "bad op"
+
+def optJ : Option (List Int) → J
+  | none => J.null
+  | some l => J.ofList J.num l
+
+def handle (cmd : String) (j : J) : Except String J :=
+  match cmd with
+  | "hist" => do
+    let g ← parseGraph (← j.get "graph")
+    let x0 ← (← j.get "x0").toListOf J.toInt
+    match init g (fun i => x0.getD i 0) with
+    | none => pure (J.obj [("init", J.str "raises")])
+    | some s0 => do
+      let steps ← runOps g s0 (← (← j.get "ops").toList)
+      pure (J.obj [("init", snap g s0 none false), ("steps", J.arr steps)])
+  | "fresh" => do
+    let g ← parseGraph (← j.get "graph")
+    let x ← (← j.get "x").toListOf J.toInt
+    pure (optJ (evalFresh g (fun i => x.getD i 0)))
+  | "program" => do
+    let g ← parseGraph (← j.get "graph")
+    let c ← (← j.get "changed").toListOf J.toNat
+    pure (J.ofList J.ofNat (program g c))
+  | _ => throw s!"unknown command {cmd}"
 
 def main : IO Unit := driverLoop handle
